@@ -39,6 +39,16 @@ def gen(ref, tier, extra_names):
                     for nm in ["my_hero"] + extra_names:
                         if nm not in vs[i]:
                             vs[i].append(nm)
+            # names that begin with a value of another key of the same type, followed by the file-name separator ('anim_x' as a
+            # node name next to the task 'anim'): one at a time on the base Sid
+            base0 = [v[0] if v else "x" for v in vs]
+            for i, (k, p) in enumerate(ref.templates[typ]):
+                if p is None:
+                    for j, (k2, p2) in enumerate(ref.templates[typ]):
+                        if p2 is not None and j != i:
+                            for w in ref.accepted(typ, j, ref.literals() + ref.digit_instances())[:6]:
+                                if w not in ("*", ">"):
+                                    yield typ, "/".join(base0[:i] + [w + "_x"] + base0[i + 1:])
             for combo in itertools.product(*vs):
                 yield typ, "/".join(combo)
             # every member of every closed vocabulary (extension names that extend another one, alias names used as plain
